@@ -6,6 +6,7 @@ import shutil
 from vlib import *
 from p_store import KEYS, Hist, hx, show_val, strip_trace, P
 from p_crash import calls_of
+from p_store import D3_SIG
 
 D12_SIG = "D12:fault-during-merge"
 ENOSPC, EIO = 28, 5
@@ -68,6 +69,8 @@ def fault_script(h, meta, fault, name):
 def evaluate(h, meta, lines, tags, ans):
     """oracle for one faulty run; yields (what, line, expected, observed, signature)"""
     allowed = {k: {None} for k in meta["keys"]}     # key -> set of allowed values (None = absent)
+    attempted = {k: set() for k in meta["keys"]}     # every value ever written or attempted for the key
+    merge_after_del = {k: False for k in meta["keys"]}   # a merge ran after the key's last acknowledged delete
     fault_seen = None
     fault_in_merge = False
     for li, tag in enumerate(tags):
@@ -91,7 +94,13 @@ def evaluate(h, meta, lines, tags, ans):
             if a.startswith("panic") or a == "hang":
                 yield (f"`{lines[li][:40]}` panicked after a fault", li, "ok", a, D12_SIG if fault_in_merge else None)
                 return
+            if op[0] == "merge":
+                for k in meta["keys"]:
+                    if allowed[k] == {None}:
+                        merge_after_del[k] = True
             if op[0] == "put":
+                attempted[op[1]].add(show_val(op[2]))
+                merge_after_del[op[1]] = False
                 if a.startswith("err"):
                     allowed[op[1]] = set(allowed[op[1]]) | {op[2]}
                 else:
@@ -114,6 +123,12 @@ def evaluate(h, meta, lines, tags, ans):
         elif tag[0] == "read":
             k = tag[2]
             exp = {show_val(v) for v in allowed[k]}
+            if a not in exp and exp == {"nil"} and a in attempted[k] and merge_after_del[k] and tag[1] == "final":
+                # D3 (known finding) in its fault flavour: the failed set's entry reached the old file when the writer was
+                # dropped; a later acknowledged delete wrote a tombstone; a merge dropped that tombstone while the file
+                # holding the entry (it has no counters, so it is never selected) survives: the key is back after restart
+                yield ("known: deleted key resurrected by merge + restart (the surviving older value is the entry of the failed set)", li, "nil", a, D3_SIG)
+                return
             if a not in exp:
                 when = "after the restart" if tag[1] == "final" else "in the running process"
                 yield (f"a key does not read one of its allowed values {when} (acknowledged data lost or another key affected by the fault)", li,
@@ -176,7 +191,7 @@ def run_c20(rep, tier, seed):
         ans, died = d.answered, d
     shutil.rmtree(root, ignore_errors=True)
     rep.cov["evaluations"] += len(run_lines_all)
-    nv, known = 0, False
+    nv, known = 0, set()
     for (h, meta, n, errno, st, ln, tags) in runs:
         a2 = ans[st:st + ln]
         lines = run_lines_all[st:st + ln]
@@ -198,8 +213,8 @@ def run_c20(rep, tier, seed):
         rep.cov["traces_validated_against_impl"] += 1
         for p in probs:
             if p[4] is not None:
-                if not known:
-                    known = True
+                if p[4] not in known:
+                    known.add(p[4])
                     rep.violation("oracle", dict(what=p[0], script=lines, failing_line=p[1], expected=p[2], observed=p[3], answers=a2), signature=p[4])
             else:
                 nv += 1
